@@ -52,7 +52,8 @@ func driveConv(c *Ctx) error {
 			in := Concretize(asJ(vv["v"]), 0)
 			cands := concretizeArgs(asL(vv["cands"]), 0)
 			for ti, t := range targets {
-				ev := J{"ev": "conv", "in": Project(in), "target": ProjectType(t)}
+				pin := Project(in)
+				ev := J{"ev": "conv", "in": pin, "target": ProjectType(t), "iv": digestOf(pin)}
 				_ = targetsJ[ti]
 				r := convRes(in, t)
 				ev["r"] = r
@@ -73,6 +74,7 @@ func driveConv(c *Ctx) error {
 					}
 				}
 				ev["cands"] = cl
+				ev["iv2"] = digestOf(Project(in)) // the converted value re-read after all the calls
 				c.Out.Emit(ev)
 			}
 		}
